@@ -309,3 +309,142 @@ def _splice(fb, f, call, shape, g, k):
     for attr in ("_local_defs_cache",):
         if hasattr(f, attr):
             delattr(f, attr)
+
+
+# ---------------------------------------------------------------------------------------------------------------------------------------
+# "assemble aside, then take over": a local byte vector that starts as a copy of a member vector and is moved / copied / swapped into that
+# member as the last thing the function does with either.  To the single-threaded, exception-free reading the rules make, that is the same
+# as building in the member itself, so the local is made an alias of the member when the fact base is loaded.
+
+def _is_byte_vector(t):
+    return isinstance(t, dict) and t.get("k") == "rec" and t.get("rec") == "std::vector" and (t.get("targs") or [None])[0] == "unsigned char"
+
+
+def _this_member(n):
+    n = strip_all_casts(n) if isinstance(n, dict) else {}
+    if n.get("k") == "member" and n.get("dk") == "field" and strip_all_casts(n.get("base") or {}).get("k") == "this":
+        return n
+    return None
+
+
+def _takeover(stmt, V):
+    """(member node) when stmt is `M = std::move(V)`, `M = V`, `M.swap(V)`, `V.swap(M)`, `std::swap(M, V)`"""
+    s = strip(stmt) if isinstance(stmt, dict) else {}
+    while s.get("k") in ("exprwithcleanups", "paren") and isinstance(s.get("e"), dict):
+        s = s["e"]
+    if s.get("k") != "call":
+        return None
+
+    def is_v(a):
+        a = strip_all_casts(a) if isinstance(a, dict) else {}
+        while a.get("k") == "call" and (a.get("callee") or {}).get("name") == "std::move" and len(a.get("args", [])) == 1:
+            a = strip_all_casts(a["args"][0])
+        while a.get("k") in ("temp", "bindtemp") and isinstance(a.get("e"), dict):
+            a = strip_all_casts(a["e"])
+        return a.get("k") == "ref" and a.get("decl") == V
+    nm = (s.get("callee") or {}).get("nm")
+    name = (s.get("callee") or {}).get("name")
+    args = s.get("args", [])
+    if nm == "operator=" and len(args) == 1 and is_v(args[0]):
+        return _this_member(s.get("obj"))
+    if nm == "swap" and "obj" in s and len(args) == 1:
+        if is_v(args[0]):
+            return _this_member(s["obj"])
+        if is_v(s["obj"]):
+            return _this_member(args[0])
+    if name == "std::swap" and len(args) == 2:
+        if is_v(args[1]):
+            return _this_member(args[0])
+        if is_v(args[0]):
+            return _this_member(args[1])
+    return None
+
+
+def alias_staging_buffers(fb):
+    done = 0
+    for f in list(fb.functions.values()):
+        if not f.raw.get("inrepo") or f.body is None or not f.rec or not f.cfg_raw or f.raw.get("templated"):
+            continue
+        for comp in [x for x in f.nodes() if x.get("k") == "compound"]:
+            body = comp.get("body", [])
+            for i, s in enumerate(body):
+                if not (isinstance(s, dict) and s.get("k") == "decl" and len(s.get("vars", [])) == 1):
+                    continue
+                v = s["vars"][0]
+                init = v.get("init")
+                if v.get("static") or not _is_byte_vector(v.get("t")) or not isinstance(init, dict):
+                    continue
+                c = strip_all_casts(init)
+                while c.get("k") in ("exprwithcleanups", "temp", "bindtemp") and isinstance(c.get("e"), dict):
+                    c = strip_all_casts(c["e"])
+                if not (c.get("k") == "construct" and c.get("copy") and len(c.get("args", [])) == 1):
+                    continue
+                M = _this_member(c["args"][0])
+                if M is None or not _is_byte_vector(M.get("t")):
+                    continue
+                V = v["decl"]
+                j = next((k for k in range(i + 1, len(body)) if _takeover(body[k], V) is not None), None)
+                if j is None or _takeover(body[j], V).get("field") != M["field"]:
+                    continue
+                # nothing leaves the function between the copy and the take-over, the member is not touched in between, the local not afterwards
+                between = [x for st in body[i + 1:j] for x in walk(st)]
+                if any(x.get("k") in ("return", "throw", "goto", "try", "lambda") for x in between):
+                    continue
+                if any(x.get("k") == "member" and x.get("field") == M["field"] for x in between):
+                    continue
+                if any(x.get("k") == "ref" and x.get("decl") == V for st in body[j + 1:] for x in walk(st)):
+                    continue
+                # break / continue out of an enclosing loop between the two would skip the take-over: only when the compound is the function body
+                if comp is not f.body and any(x.get("k") in ("break", "continue") for x in between):
+                    continue
+                # calls between the two that could read the member through `this`: own methods (other than static ones)
+                own = False
+                for x in between:
+                    if x.get("k") == "call":
+                        g = fb.resolve_call(x)
+                        if g is not None and g.rec and not g.raw.get("static") and strip_all_casts(x.get("obj") or {}).get("k") == "this":
+                            reach = [g] + [fb.functions[k] for k in fb.reachable_from([g]) if k in fb.functions]
+                            if any(h.body is None or any(y.get("k") == "member" and y.get("field") == M["field"] for y in h.nodes()) for h in reach):
+                                own = True
+                if own:
+                    continue
+                nid = [max(x.get("id", 0) for x in f.nodes() if isinstance(x.get("id"), int)) + 1000]
+
+                def member_copy(keep_id, loc):
+                    m = copy.deepcopy(M)
+                    for x in walk(m):
+                        if "id" in x:
+                            nid[0] += 1
+                            x["id"] = nid[0]
+                    m["id"] = keep_id
+                    m["staging_alias"] = v.get("name")
+                    if loc:
+                        m["loc"] = loc
+                    return m
+                for st in body[i + 1:j]:
+                    for x in list(walk(st)):
+                        if x.get("k") == "ref" and x.get("decl") == V:
+                            rid, loc = x.get("id"), x.get("loc")
+                            x.clear()
+                            x.update(member_copy(rid, loc))
+                for st, why in ((body[i], "staging_decl"), (body[j], "staging_takeover")):
+                    sid, loc = st.get("id"), st.get("loc")
+                    st.clear()
+                    st.update({"k": "null", "id": sid, why: v.get("name")})
+                    if loc:
+                        st["loc"] = loc
+                # CFG: elements of the two removed statements vanish (their sub-expressions are no longer in the tree)
+                f._nodes = None
+                f._parent = None
+                live = {x["id"] for x in f.nodes() if isinstance(x.get("id"), int)}
+                for b in f.raw["cfg"]["blocks"]:
+                    b["el"] = [e for e in b.get("el", []) if not (isinstance(e, int) and e >= 0 and e not in live)]
+                f.cfg_raw = f.raw["cfg"]
+                f._cfg = None
+                for attr in ("_local_defs_cache",):
+                    if hasattr(f, attr):
+                        delattr(f, attr)
+                done += 1
+                break
+    fb.staging_aliases = done
+    return done
